@@ -112,7 +112,7 @@ neighbouring PINs' hashes, invalid PINs. distinct = distinct (pin, seed mod 10!)
     let ss0: [u8; 16] = *b"server-salt-0123";
     let cs0: [u8; 16] = *b"client-salt-4567";
     // ---- all residues
-    let shards = 64usize;
+    let shards = if tier == "miri" { 4usize } else { 64usize };
     let stride: u32 = if tier == "miri" { 120_000 } else { 1 };
     let r = par(shards, threads(), |sh| {
         let mut rep = Rep::new();
@@ -141,10 +141,10 @@ neighbouring PINs' hashes, invalid PINs. distinct = distinct (pin, seed mod 10!)
     // ---- everything else
     let (n_pins, n_rand): (u32, u64) = match tier {
         "quick" => (100_000, 2_000_000),
-        "thorough" => (100_000, 20_000_000),
-        _ => (1200, 60),
+        "thorough" => (100_000, 200_000_000),
+        _ => (240, 32),
     };
-    let r = par(16, threads(), |sh| {
+    let r = par(if tier == "miri" { 2 } else { 16 }, threads(), |sh| {
         let mut rep = Rep::new();
         let mut rng = Rng::new(seed, 0x16000 + sh as u64);
         // all PINs 0..n_pins (sharded)
@@ -164,7 +164,7 @@ neighbouring PINs' hashes, invalid PINs. distinct = distinct (pin, seed mod 10!)
         }
         if sh == 0 {
             // seeds congruent modulo 10!
-            for j in 0..=(u32::MAX / FACT10) {
+            for j in 0..=(if n_pins < 10_000 { 3 } else { u32::MAX / FACT10 }) {
                 for s in [0u32, 1, 3_628_799, 123_456] {
                     if let Some(sd) = s.checked_add(j.wrapping_mul(FACT10)).filter(|_| (j as u64) * (FACT10 as u64) + s as u64 <= u32::MAX as u64) {
                         judge(&mut rep, 9_876_543_210u64 as u32, sd, &ss0, &cs0, "seed_plus_multiple_of_10!");
